@@ -68,6 +68,9 @@ def _new_recipe(rng, known_shapes):
         extra["scalar_coord"] = True
     if rng.random() < 0.1:
         extra["exotic_attrs"] = True
+    extra["depth"] = rng.choice(["shelf", "shelf", "deep", "mixed"])
+    if rng.random() < 0.15:
+        extra["origin_site"] = True
     if rng.random() < 0.15:
         extra["lat_desc"] = True
     if rng.random() < 0.3:
@@ -125,7 +128,10 @@ def _gen_call(rng, meta, force_sel=None):
         kw = {"kind": rng.choice(["contourf", "contour", "pcolormesh"])}
         if rng.random() < 0.5:
             kw.update(rng.choice([{"as_period": True}, {"normalised": False}, {"logradius": False}, {"rmax": 0.3}]))
-        return {"m": "plot", "via": rng.choice(["da", "ds"]) if meta["kind"] == "ds" else "da", "kw": kw}
+        op = {"m": "plot", "via": rng.choice(["da", "ds"]) if meta["kind"] == "ds" else "da", "kw": kw}
+        if rng.random() < 0.5:
+            op["subplot_kws"] = rng.choice([{"facecolor": "w"}, {"projection": "polar"}, {"theta_direction": -1, "facecolor": "0.9"}])
+        return op
     others = [s for s, m in (meta.get("all") or {}).items() if m.get("kind") in ("ds", "da") and m["recipe"].get("nd", 0) >= 2 and m is not meta]
     if others and recipe.get("nd", 0) >= 2 and rng.random() < 0.12:
         return {"m": "interp_like", "via": "da" if meta["kind"] == "da" else rng.choice(["da", "ds"]), "other": rng.choice(others), "kw": {"maintain_m0": rng.random() < 0.7}}
@@ -270,6 +276,10 @@ def gen_plan(rng, tier="quick", prop="C18"):
             steps.append({"op": "native", "shape": list(shape), "seed": rng.randrange(10**6), "ihmax": rng.choice([100, 100, 50, 200, 20]),
                           "flat": rng.random() < 0.15})
             known_shapes.append(tuple(shape))
+        elif kind == "reader" and rng.random() < 0.25 and any(m["kind"] == "ds" and any(k == "site" for k, _ in m["recipe"]["dims"]) and m["recipe"]["nd"] >= 2 for m in metas.values()):
+            # read_dataset on a dataset that already is in the wavespectra convention
+            cands = [s for s, m in metas.items() if m["kind"] == "ds" and any(k == "site" for k, _ in m["recipe"]["dims"]) and m["recipe"]["nd"] >= 2]
+            steps.append({"op": "reader", "slot": rng.choice(cands), "fn": "read_dataset"})
         elif kind == "reader":
             nat = [s for s, m in metas.items() if m["kind"] == "native"]
             if nat and rng.random() < 0.6:
@@ -322,7 +332,12 @@ def gen_plan(rng, tier="quick", prop="C18"):
             cands = [s for s in wsl if metas[s]["kind"] == "ds" and metas[s]["recipe"]["nd"] >= 3 and metas[s]["backing"] != "dask"
                      and int(np.prod([n for _, n in metas[s]["recipe"]["dims"]] or [1])) <= 3 and metas[s]["recipe"]["nf"] * metas[s]["recipe"]["nd"] <= 64]
             if cands:
-                steps.append({"op": "reconstruct", "slot": rng.choice(cands), "parts": rng.choice([1, 2]), "method": rng.choice(["ptm3", "ptm3", "ptm1"])})
+                ud = [None, None, ["alpha", "gamma"], ["alpha", "dpspr"], ["gamma"]]
+                first = {"op": "reconstruct", "slot": rng.choice(cands), "parts": rng.choice([1, 2]), "method": rng.choice(["ptm3", "ptm3", "ptm1"]), "use_defaults": rng.choice(ud)}
+                steps.append(first)
+                if rng.random() < 0.5:
+                    # the same entry point again with other options (on the same or another dataset)
+                    steps.append(dict(first, slot=rng.choice(cands), use_defaults=rng.choice([u for u in ud if u != first["use_defaults"]])))
         elif kind == "readfile" and files:
             fname = rng.choice(sorted(files))
             steps.append({"op": "readfile", "file": fname, "fmt": files[fname]})
@@ -352,7 +367,7 @@ def shape(plan):
         elif op == "construct":
             parts.append(f"construct:{st['freq_name']}:{len(st['fk']['freq'])}x{len(st['dk']['dir'])}:{st.get('defaults')}")
         elif op == "reconstruct":
-            parts.append(f"reconstruct{st['slot']}:{st['parts']}:{st['method']}")
+            parts.append(f"reconstruct{st['slot']}:{st['parts']}:{st['method']}:{st.get('use_defaults')}")
         elif op == "writer":
             parts.append(f"write{st['slot']}:{st['fmt']}:{st['file']}:{st.get('fault')}")
         else:
@@ -554,7 +569,10 @@ def run_construct(st, fk, dk):
 def run_reconstruct(ds, st):
     from wavespectra.construct import partition_and_reconstruct
 
-    return partition_and_reconstruct(ds, parts=st["parts"], partition_method=st["method"])
+    kw = {}
+    if st.get("use_defaults") is not None:
+        kw["use_defaults"] = list(st["use_defaults"])
+    return partition_and_reconstruct(ds, parts=st["parts"], partition_method=st["method"], **kw)
 
 
 def call_args(store, call):
@@ -574,6 +592,8 @@ def call_args(store, call):
         kind = "colview" if call.get("as_array") else "list"
         args["lons"] = store.get(kind, list(call["lons"]))
         args["lats"] = store.get("array" if call.get("as_array") else "list", list(call["lats"]))
+    elif m == "plot" and call.get("subplot_kws"):
+        args["subplot_kws"] = store.get("dict", dict(call["subplot_kws"]))
     elif m == "interp":
         kind = "da1d:freq" if call.get("as_da") else "array"
         if call.get("freq") is not None:
@@ -729,6 +749,14 @@ BATTERY_2D = BATTERY_1D + [{"m": "split", "via": "da", "kw": {"dmin": 45.0, "dma
                            {"m": "sel", "via": "ds", "lons": [151.0, 151.0], "lats": [-29.0, -29.0], "kw": {"method": "nearest", "tolerance": 50.0}}]
 
 
+BATTERY_STEPS = [
+    {"op": "reconstruct", "parts": 2, "method": "ptm3"},
+    {"op": "reconstruct", "parts": 1, "method": "ptm1", "use_defaults": ["alpha", "dpspr"]},
+    {"op": "construct", "freq_name": "jonswap", "dir_name": "cartwright", "fk": {"freq": [0.04, 0.05, 0.0625, 0.078, 0.0977, 0.122], "fp": 0.0625, "hs": 2.0},
+     "dk": {"dir": [0.0, 60.0, 120.0, 180.0, 240.0, 300.0], "dm": 120.0, "dspr": 25.0}},
+]
+
+
 # -- reading the repository's sample files and generated instrument files ---------------------
 SAMPLES = [
     ("read_swan", "swanfile.spec", {}), ("read_swan", "swanfile.spec", {"as_site": True}), ("read_swan", "swanhot.spec", {}),
@@ -874,6 +902,37 @@ def execute(arg):
             if sl2.kind in ("ds", "da") and sl2.backing != "dask":
                 has_dir = "dir" in (sl2.obj.dims if sl2.kind == "da" else sl2.obj["efth"].dims)
                 targets.append((sl2.obj, sl2.aux, [c for c in (BATTERY_2D if has_dir else BATTERY_1D) if c["m"] not in ("sel", "ptm3") and not (sl2.kind == "da" and c.get("via") == "ds")]))
+        # the other entry points of the library: construction and reconstruction with their default arguments
+        rec_ds = D.make_dataset(BATTERY_RECIPES[1])
+        for st2 in BATTERY_STEPS:
+            kind2 = st2["op"]
+            try:
+                if kind2 == "construct":
+                    fk2 = {k: (np.asarray(v, dtype=float) if isinstance(v, list) else v) for k, v in st2["fk"].items()}
+                    dk2 = {k: (np.asarray(v, dtype=float) if isinstance(v, list) else v) for k, v in st2["dk"].items()}
+                    mine, raised = cmp.canon(run_construct(st2, fk2, dk2)), None
+                    req2 = {"kind": "construct", "st": st2}
+                else:
+                    mine, raised = cmp.canon(run_reconstruct(rec_ds, st2)), None
+                    req2 = {"kind": "reconstruct", "st": st2, "obj": F.freeze(rec_ds)}
+            except Exception as exc:
+                mine, raised = None, type(exc).__name__
+                req2 = {"kind": kind2, "st": st2, "obj": F.freeze(rec_ds)}
+            rep = server.call(req2)
+            sim.count("battery_calls")
+            if "harness" in rep:
+                raise RuntimeError("reference process failed: " + rep["harness"])
+            lab2 = "partition_and_reconstruct" if kind2 == "reconstruct" else "construct_partition"
+            if raised is not None or "raised" in rep:
+                if raised != rep.get("raised"):
+                    add("C18", "fresh", lab2, f"after:global-state:{what}", "exception",
+                        f"{lab2} {('raises ' + raised) if raised else 'returns'} after module-level state {what} changed, but in a pristine process it "
+                        f"{('raises ' + rep['raised'] + ': ' + rep.get('msg', '')) if 'raised' in rep else 'returns'}", i)
+            else:
+                d = cmp.compare(rep["ok"], mine, rtol=None)
+                if d:
+                    add("C18", "fresh", lab2, f"after:global-state:{what}", d[0],
+                        f"{lab2} after module-level state {what} changed differs from a pristine process: {d[1]}", i)
         for obj, aux, calls in targets:
             for call in calls:
                 try:
@@ -1037,10 +1096,10 @@ def execute(arg):
                     req = {"kind": "native", "shape": st["shape"], "seed": st["seed"], "ihmax": st["ihmax"], "flat": st.get("flat", False)}
                     sim.count("native_calls")
                 elif op == "reader":
-                    if sl.kind != "native":
+                    if sl.kind not in ("native", "ds"):
                         continue
-                    req = {"kind": "reader", "fmt": sl.fmt, "fn": st["fn"]}
-                    res_c = cmp.canon(call_reader(sl.obj, sl.fmt, st["fn"]))
+                    req = {"kind": "reader", "fmt": sl.fmt, "fn": st["fn"] if sl.kind == "native" else "read_dataset"}
+                    res_c = cmp.canon(call_reader(sl.obj, sl.fmt, req["fn"]))
                     sim.count("reader_calls")
                 elif op == "writer":
                     if sl.kind != "ds":
